@@ -7,6 +7,7 @@ import TornadoModel.C44.FloatRt
 import TornadoModel.C44.Dt
 import TornadoModel.C44.TdRej
 import TornadoModel.C44.DtRej
+import TornadoModel.C44.Loop
 namespace TornadoModel.C44
 open Spec
 
@@ -352,5 +353,283 @@ theorem wrong_type_rejected_datetime (o : Opt) (ho : o.ty = .datetime) (hm : o.m
 
 example : ∃ c ∈ lit "2024/02/29", isDigit c = false ∧ isAlpha c = false ∧ isWs c = false ∧ c ≠ 45 ∧ c ≠ 58 := by
   decide +kernel
+
+/-! ## command line / config file → stored value (loop level) -/
+
+/-- the textual forms whose parse is proved above, with the value each denotes for an option `o` -/
+inductive Denotes (o : Opt) : Str → Val → Prop where
+  | str (s : Str) : o.ty = .str → o.multiple = false → Denotes o s (.str s)
+  | int (n : Int) : o.ty = .int → o.multiple = false → Denotes o (showInt n) (.int n)
+  | intList (items : List Item) : o.ty = .int → o.multiple = true → items ≠ [] →
+      Denotes o (showItems items) (.list ((denoteItems items).map Val.int))
+  | float (l : DecLit) : o.ty = .float → o.multiple = false → l.wf → Denotes o (showDec l) (denoteDec l)
+  | boolFalse (s : Str) : o.ty = .bool → o.multiple = false →
+      (lower s = lit "false" ∨ lower s = lit "0" ∨ lower s = lit "f") → Denotes o s (.bool false)
+  | boolTrue (s : Str) : o.ty = .bool → o.multiple = false →
+      (lower s = lit "true" ∨ lower s = lit "1" ∨ lower s = lit "t") → Denotes o s (.bool true)
+  | datetime (y mo d h mi s : Nat) : o.ty = .datetime → o.multiple = false → validDt y mo d h mi s →
+      Denotes o (showDtIso y mo d h mi s) (.dt y mo d h mi s)
+  | timedelta (parts : List (Nat × TdUnit)) : o.ty = .timedelta → o.multiple = false → parts ≠ [] →
+      (∀ k, tdInRange (denoteTd (parts.take k)) = true) → (∀ p ∈ parts, tdInRange (Int.ofNat (p.1 * p.2.micros)) = true) →
+      Denotes o (showTd parts) (.td (denoteTd parts))
+
+/-- `_Option.parse` of a denoting text stores the denoted value (all types; collects the `*_roundtrip` theorems) -/
+theorem parse_denotes (o : Opt) (hh : o.isHelp = false) (text : Str) (v : Val) (h : Denotes o text v) :
+    o.parse text = ({ o with value := some v }, none) := by
+  cases h with
+  | str _ ho hm => exact str_identity o ho hm hh text
+  | int n ho hm => exact int_option_roundtrip o ho hm hh n
+  | intList items ho hm hne => exact int_list_roundtrip o ho hm items hne
+  | float l ho hm hwf => exact float_option_roundtrip o ho hm hh l hwf
+  | boolFalse _ ho hm hs => simp [Opt.parse, hm, ho, (bool_partial text).1 hs, hh]
+  | boolTrue _ ho hm hs => simp [Opt.parse, hm, ho, (bool_partial text).2 hs, hh]
+  | datetime y mo d h mi s ho hm hv => simp [Opt.parse, hm, ho, datetime_roundtrip y mo d h mi s hv, hh]
+  | timedelta parts ho hm hne hk hp => exact timedelta_option_roundtrip o ho hm hh parts hne hk hp
+
+theorem keyOf_optArgN (k : Nat) (name text : Str) (hd : ∀ c, name.head? = some c → c ≠ 45) (hn : 61 ∉ name) :
+    keyOf (optArgN k name text) = normalize name := by
+  unfold keyOf
+  rw [optArgN_partition k name text hd hn]
+
+/-- **command line sets the option** (loop level): after `-…-name=text` (one or more dashes) for a defined option whose parse succeeds with `o'`,
+    and further arguments that do not name it again, the table holds exactly `o'` under the normalised name — whatever
+    the outcome of the later arguments — and every option not named on the command line is unchanged. -/
+theorem cmdline_sets (st : State) (n : Nat) (name text : Str) (rest : List Str) (o o' : Opt)
+    (hd : ∀ c, name.head? = some c → c ≠ 45) (hn : 61 ∉ name)
+    (hl : lookup st (normalize name) = some o) (hp : o.parse text = (o', none))
+    (hrest : ∀ a ∈ rest, keyOf a ≠ normalize name) :
+    lookup (parseArgsLoop st (optArgN n name text :: rest)).1 (normalize name) = some o'
+    ∧ ∀ k, k ≠ normalize name → (∀ a ∈ rest, keyOf a ≠ k) →
+        lookup (parseArgsLoop st (optArgN n name text :: rest)).1 k = lookup st k := by
+  constructor
+  · rw [cmdline_step st n name text rest o o' hd hn hl hp, unset_keep_default rest _ _ hrest]
+    have hk : o'.key = o.key := by
+      have := parse_key o text
+      rw [hp] at this
+      exact this
+    exact lookup_update_same st o o' _ hl hk
+  · intro k hk hr
+    apply unset_keep_default
+    intro a ha
+    rcases List.mem_cons.1 ha with rfl | ha
+    · rw [keyOf_optArgN n name text hd hn]; exact fun e => hk e.symm
+    · exact hr a ha
+
+/-- **config file sets the option** (loop level), string value handed to `parse` -/
+theorem config_sets_parsed (st : State) (name text : Str) (rest : List (Str × Val)) (o o' : Opt)
+    (hl : lookup st (normalize name) = some o) (hty : o.ty ≠ .str ∨ o.multiple = true)
+    (hp : o.parse text = (o', none)) (hrest : ∀ it ∈ rest, normalize it.1 ≠ normalize name) :
+    lookup (parseConfig st ((name, .str text) :: rest)).1 (normalize name) = some o'
+    ∧ ∀ k, k ≠ normalize name → (∀ it ∈ rest, normalize it.1 ≠ k) →
+        lookup (parseConfig st ((name, .str text) :: rest)).1 k = lookup st k := by
+  constructor
+  · rw [config_step_parse st name text rest o o' hl hty hp, unset_keep_default_config rest _ _ hrest]
+    have hk : o'.key = o.key := by
+      have := parse_key o text
+      rw [hp] at this
+      exact this
+    exact lookup_update_same st o o' _ hl hk
+  · intro k hk hr
+    apply unset_keep_default_config
+    intro it hit
+    rcases List.mem_cons.1 hit with rfl | hit
+    · exact fun e => hk e.symm
+    · exact hr it hit
+
+/-- **config file sets the option** (loop level), value handed to `set` (typed value, or a string for a plain `str` option) -/
+theorem config_sets_typed (st : State) (name : Str) (v : Val) (rest : List (Str × Val)) (o o' : Opt)
+    (hl : lookup st (normalize name) = some o)
+    (hv : (∀ s, v ≠ .str s) ∨ (o.ty = .str ∧ o.multiple = false))
+    (hm : o.multiple = true → ∃ l, v = .list l)
+    (hs : o.set v = (o', none)) (hrest : ∀ it ∈ rest, normalize it.1 ≠ normalize name) :
+    lookup (parseConfig st ((name, v) :: rest)).1 (normalize name) = some o'
+    ∧ ∀ k, k ≠ normalize name → (∀ it ∈ rest, normalize it.1 ≠ k) →
+        lookup (parseConfig st ((name, v) :: rest)).1 k = lookup st k := by
+  constructor
+  · rw [config_step_set st name v rest o o' hl hv hm hs, unset_keep_default_config rest _ _ hrest]
+    have hk : o'.key = o.key := by
+      have := set_key o v
+      rw [hs] at this
+      exact this
+    exact lookup_update_same st o o' _ hl hk
+  · intro k hk hr
+    apply unset_keep_default_config
+    intro it hit
+    rcases List.mem_cons.1 hit with rfl | hit
+    · exact fun e => hk e.symm
+    · exact hr it hit
+
+/-- **the main clause, command line** (run level, every type): `parse_command_line([prog, "--name=text"])` (or `-name=text`, `---name=text`) where `text`
+    denotes `v` for the defined option returns normally with no remaining arguments, the option's value is `v`
+    (`Opt.get`, i.e. what `options.name` returns), and every other option is unchanged. -/
+theorem cmdline_yields_denoted (st : State) (n : Nat) (prog name text : Str) (o : Opt) (v : Val)
+    (hd : ∀ c, name.head? = some c → c ≠ 45) (hn : 61 ∉ name)
+    (hl : lookup st (normalize name) = some o) (hh : o.isHelp = false) (hden : Denotes o text v) :
+    (step st (.cmdline [prog, optArgN n name text])).2 = .remaining []
+    ∧ (lookup (step st (.cmdline [prog, optArgN n name text])).1 (normalize name)).map Opt.get = some v
+    ∧ ∀ k, k ≠ normalize name → lookup (step st (.cmdline [prog, optArgN n name text])).1 k = lookup st k := by
+  have hp := parse_denotes o hh text v hden
+  have hs : step st (.cmdline [prog, optArgN n name text]) = (update st { o with value := some v }, .remaining []) := by
+    simp [step, parseCommandLine, cmdline_step st n name text [] o _ hd hn hl hp, parseArgsLoop]
+  have hc := cmdline_sets st n name text [] o _ hd hn hl hp (by simp)
+  have hloop : parseArgsLoop st [optArgN n name text] = (update st { o with value := some v }, .ok []) := by
+    rw [cmdline_step st n name text [] o _ hd hn hl hp]; rfl
+  rw [hloop] at hc
+  rw [hs]
+  refine ⟨rfl, ?_, ?_⟩
+  · rw [hc.1]; rfl
+  · intro k hk
+    exact hc.2 k hk (by simp)
+
+/-- **the main clause, config file, textual value** (run level, every type): `name = "text"` where `text` denotes `v` -/
+theorem config_yields_denoted (st : State) (name text : Str) (o : Opt) (v : Val)
+    (hl : lookup st (normalize name) = some o) (hh : o.isHelp = false) (hden : Denotes o text v) :
+    (step st (.config [(name, .str text)])).2 = .unit
+    ∧ (lookup (step st (.config [(name, .str text)])).1 (normalize name)).map Opt.get = some v
+    ∧ ∀ k, k ≠ normalize name → lookup (step st (.config [(name, .str text)])).1 k = lookup st k := by
+  have hp := parse_denotes o hh text v hden
+  have hcfg : parseConfig st [(name, .str text)] = (update st { o with value := some v }, none) := by
+    by_cases hty : o.ty ≠ .str ∨ o.multiple = true
+    · rw [config_step_parse st name text [] o _ hl hty hp]; rfl
+    · have h1 : o.ty = .str := Decidable.byContradiction (fun h => hty (Or.inl h))
+      have h2 : o.multiple = false := by
+        cases h : o.multiple with
+        | false => rfl
+        | true => exact absurd (Or.inr h) hty
+      have hv : v = .str text := by
+        cases hden <;> simp_all
+      subst hv
+      rw [config_step_set st name (.str text) [] o _ hl (Or.inr ⟨h1, h2⟩) (by simp [h2])
+        (set_ok o (.str text) h2 (by simp [isInstance, h1]) hh)]
+      rfl
+  have hk : ({ o with value := some v } : Opt).key = o.key := rfl
+  have hs : step st (.config [(name, .str text)]) = (update st { o with value := some v }, .unit) := by
+    simp [step, hcfg]
+  rw [hs]
+  refine ⟨rfl, ?_, ?_⟩
+  · rw [lookup_update_same st o _ _ hl hk]; rfl
+  · intro k hkn
+    apply lookup_update_ne
+    have hok : o.key = normalize name := lookup_key st _ o hl
+    simp only [hok]
+    simpa using fun e => hkn e.symm
+
+/-- **the main clause, config file, typed value** (run level): `name = <object of the option's type>` stores that object -/
+theorem config_yields_typed (st : State) (name : Str) (o : Opt) (v : Val)
+    (hl : lookup st (normalize name) = some o) (hh : o.isHelp = false) (hm : o.multiple = false)
+    (hns : ∀ s, v ≠ .str s) (hi : isInstance o.ty v = true) :
+    (step st (.config [(name, v)])).2 = .unit
+    ∧ (lookup (step st (.config [(name, v)])).1 (normalize name)).map Opt.get = some v
+    ∧ ∀ k, k ≠ normalize name → lookup (step st (.config [(name, v)])).1 k = lookup st k := by
+  have hcfg : parseConfig st [(name, v)] = (update st { o with value := some v }, none) := by
+    rw [config_step_set st name v [] o _ hl (Or.inl hns) (by simp [hm]) (set_ok o v hm hi hh)]; rfl
+  have hk : ({ o with value := some v } : Opt).key = o.key := rfl
+  have hs : step st (.config [(name, v)]) = (update st { o with value := some v }, .unit) := by
+    simp [step, hcfg]
+  rw [hs]
+  refine ⟨rfl, ?_, ?_⟩
+  · rw [lookup_update_same st o _ _ hl hk]; rfl
+  · intro k hkn
+    apply lookup_update_ne
+    have hok : o.key = normalize name := lookup_key st _ o hl
+    simp only [hok]
+    simpa using fun e => hkn e.symm
+
+/-- **wrong values are rejected, command line** (run level): if `_Option.parse` of the text fails with `e` (see the
+    `wrong_type_rejected_*` theorems), `parse_command_line([prog, "--name=text"])` raises `e` -/
+theorem cmdline_rejects (st : State) (n : Nat) (prog name text : Str) (o o' : Opt) (e : Err)
+    (hd : ∀ c, name.head? = some c → c ≠ 45) (hn : 61 ∉ name)
+    (hl : lookup st (normalize name) = some o) (hp : o.parse text = (o', some e)) :
+    step st (.cmdline [prog, optArgN n name text]) = (update st o', .err e) := by
+  simp [step, parseCommandLine, cmdline_step_error st n name text [] o o' e hd hn hl hp]
+
+/-- **wrong values are rejected, config file** (run level): a string whose parse fails raises that error; a typed value of
+    another class raises `Error` and the option keeps its value -/
+theorem config_rejects (st : State) (name : Str) (o : Opt) (hl : lookup st (normalize name) = some o) :
+    (∀ text o' e, (o.ty ≠ .str ∨ o.multiple = true) → o.parse text = (o', some e) →
+        step st (.config [(name, .str text)]) = (update st o', .err e))
+    ∧ (∀ v, o.multiple = false → (∀ s, v ≠ .str s) → isNone v = false → isInstance o.ty v = false →
+        (step st (.config [(name, v)])).2 = .err .error
+        ∧ lookup (step st (.config [(name, v)])).1 (normalize name) = some o) := by
+  constructor
+  · intro text o' e hty hp
+    simp [step, config_step_error st name text [] o o' e hl hty hp]
+  · intro v hm hns hnone hi
+    have hs := wrong_type_rejected_config o hm v hnone hi
+    have h := config_step_set_error st name v [] o o .error hl hns hm hs
+    simp only [step, h]
+    exact ⟨trivial, lookup_update_same st o o _ hl rfl⟩
+
+example : ∃ o' e, ({ key := lit "n", ty := .int, multiple := false, default := .none, value := none } : Opt).parse (lit "12a")
+    = (o', some e) := ⟨_, _, wrong_type_rejected_int _ rfl rfl (lit "12a") 97 (by decide +kernel) (by decide) (by decide)
+      (by decide) (by decide) (by decide)⟩
+
+/-- reachability of the hypotheses above: `define` of a fresh name succeeds, makes `lookup` return the new, unset option,
+    and leaves every other option alone -/
+theorem define_lookup (st : State) (name : Str) (ty : Ty) (multiple : Bool) (default : Val)
+    (hfresh : lookup st (normalize name) = none) :
+    (define st name (some ty) multiple default).2 = none
+    ∧ lookup (define st name (some ty) multiple default).1 (normalize name)
+      = some { key := normalize name, ty := ty, multiple := multiple,
+               default := if isNone default && multiple then .list [] else default, value := none }
+    ∧ ∀ k, k ≠ normalize name → lookup (define st name (some ty) multiple default).1 k = lookup st k := by
+  unfold define
+  simp only [hfresh]
+  refine ⟨?_, ?_, ?_⟩
+  · trivial
+  · unfold lookup at hfresh ⊢
+    rw [List.find?_append, hfresh]
+    simp
+  · intro k hk
+    unfold lookup
+    rw [List.find?_append]
+    cases List.find? (fun o => o.key == k) st with
+    | some x => rfl
+    | none =>
+      have : (normalize name == k) = false := by simpa using fun e => hk e.symm
+      simp [this]
+
+/-- end to end from the initial parser, ∀ n: `define("port", default=80, type=int)` then
+    `parse_command_line(["prog", "--port=<n>"])` leaves `options.port == n` and `options.help` at its default -/
+theorem e2e_int_cmdline (n : Int) :
+    let r := run initState [.define (lit "port") (some .int) false (.int 80),
+                            .cmdline [lit "prog", optArg (lit "port") (showInt n)]]
+    r.2 = [.unit, .remaining []]
+    ∧ (lookup r.1 (lit "port")).map Opt.get = some (.int n)
+    ∧ (lookup r.1 (lit "help")).map Opt.get = some .none := by
+  have hnorm : normalize (lit "port") = lit "port" := by decide +kernel
+  have hfresh : lookup initState (normalize (lit "port")) = none := by decide +kernel
+  obtain ⟨hd1, hd2, hd3⟩ := define_lookup initState (lit "port") .int false (.int 80) hfresh
+  generalize hst : (define initState (lit "port") (some .int) false (.int 80)).1 = st at hd1 hd2 hd3
+  have hdef : define initState (lit "port") (some .int) false (.int 80) = (st, none) := by
+    rw [← hst, ← hd1]
+  obtain ⟨h1, h2, h3⟩ := cmdline_yields_denoted st 1 (lit "prog") (lit "port") (showInt n) _ (.int n)
+    (by decide +kernel) (by decide +kernel) hd2 rfl (Denotes.int n rfl rfl)
+  have hhelp : lookup st (lit "help") = lookup initState (lit "help") := hd3 (lit "help") (by decide +kernel)
+  have hhelp0 : (lookup initState (lit "help")).map Opt.get = some .none := by
+    have : lit "help" = [104, 101, 108, 112] := by decide +kernel
+    simp [this, lookup, initState, Opt.get]
+  simp only [run, step, hdef]
+  simp only [step] at h1 h2 h3
+  refine ⟨?_, ?_, ?_⟩
+  · simp [h1]
+  · rw [hnorm] at h2; simpa using h2
+  · have := h3 (lit "help") (by decide +kernel)
+    simp only [this, hhelp]
+    exact hhelp0
+
+example : optArg (lit "my_opt") (lit "1h 30m") = lit "--my_opt=1h 30m" := by decide +kernel
+example : normalize (lit "my_opt") = lit "my-opt" := by decide +kernel
+example : ∀ c, (lit "my_opt").head? = some c → c ≠ 45 := by decide +kernel
+example : 61 ∉ lit "my_opt" := by decide +kernel
+example : Denotes { key := lit "n", ty := .int, multiple := true, default := .list [], value := none }
+    (lit "1,3:5") (.list [.int 1, .int 3, .int 4, .int 5]) := by
+  have := @Denotes.intList { key := lit "n", ty := .int, multiple := true, default := .list [], value := none }
+    [.single 1, .range 3 5] rfl rfl (by simp)
+  have h1 : showItems [.single 1, .range 3 5] = lit "1,3:5" := by decide +kernel
+  have h2 : denoteItems [.single 1, .range 3 5] = [1, 3, 4, 5] := by decide +kernel
+  rw [h1, h2] at this
+  exact this
+example : isInstance .float (.fbin 3 2) = true ∧ ∀ s, Val.fbin 3 2 ≠ .str s := ⟨rfl, fun _ h => by cases h⟩
 
 end TornadoModel.C44
